@@ -31,6 +31,7 @@ type Case = copysc.Case
 func gen(t *rapid.T) Case {
 	o := copysc.DefaultGen()
 	o.Cancel = true // a caller that gives up mid-copy: the copy may fail, but a nil return still has to mean a complete image
+	o.Damage = true // a layout target whose index lists the image while the manifest file is missing
 	o.Align = true  // requests released in pairs in a quarter of the cases: the per-child goroutines reach the shared bookkeeping together
 	return copysc.Gen(t, o)
 }
